@@ -61,6 +61,19 @@ fn unary(ctx: &mut Ctx, a: &[isize], rots: &[isize], pows: &[isize], g: isize) {
     });
 }
 
+/// `impl Index<usize> for FreeWord`: `w[k]` for the given positions of the reduced word;
+/// `k = len` is out of range and must panic.
+fn index(ctx: &mut Ctx, a: &[isize], ks: &[usize]) {
+    let t = nt(a);
+    for &k in ks {
+        let tag = format!("{} len={}", t, a.len().min(9));
+        ctx.case("index", &tag, || format!("{} {}", enc_list(a), k), || {
+            let w = fw(a);
+            format!("{}", w[k])
+        });
+    }
+}
+
 fn binary(ctx: &mut Ctx, a: &[isize], b: &[isize]) {
     let t = if nt(a) == "nt" || nt(b) == "nt" || (!a.is_empty() && !b.is_empty() && a[a.len() - 1] == -b[0]) { "nt" } else { "" };
     let tag = format!("{} len={}", t, (a.len() + b.len()).min(9));
@@ -271,6 +284,21 @@ fn main() {
     for _ in 0..nprog {
         let len = 2 + rng.below(10);
         program(&mut ctx, &mut rng, len);
+    }
+    // (6) indexing (appended last so that earlier case ids stay stable): every position of
+    // every word of universe (1), the first position past the end, and a few positions of
+    // random long words
+    for a in words_upto(3, maxlen, true) {
+        let n = fw(&a).len();
+        index(&mut ctx, &a, &(0..=n).collect::<Vec<_>>());
+    }
+    let mut rng = ctx.rng(12);
+    for _ in 0..nrand {
+        let a = random_word(&mut rng, 3, 200);
+        let m = fw(&a).len();
+        let mut ks = vec![0, m / 2, m.saturating_sub(1), m, m + 1 + rng.below(5)];
+        ks.dedup();
+        index(&mut ctx, &a, &ks);
     }
     ctx.finish();
 }
